@@ -1,7 +1,12 @@
 /-
   Helper lemmas and invariants for C11 (DeltaGraph).
-  A: dictionaries, `foldlM`, sorted tuples, `nodeDiff`.
-  B: coverage invariant, soundness of collapse.
+
+  A: association-list dictionaries, `foldlM` in `Except`, sorted tuples, `nodeDiff`.
+  B: coverage invariant `Inv`; soundness of collapse (`collapse_sound_aux`).
+  C: total correctness of `removeNode` (`removeNode_total`).
+  D: structural invariant `GInv`; insertion and fusion never raise (`run_total`).
 -/
 import Mwp.Lemmas.DeltaGraphA
 import Mwp.Lemmas.DeltaGraphB
+import Mwp.Lemmas.DeltaGraphC
+import Mwp.Lemmas.DeltaGraphD
